@@ -234,6 +234,10 @@ class Arms:
                 if sym.is_c(lo) and sym.is_c(hi):
                     kind = float_le(e["snap"][1] if len(e.get("snap") or []) > 1 else None) or "le%d" % (hi[1] - lo[1])
             return "extend:" + kind
+        if nm == "split_first_chunk" and "<impl [T]>" in key:
+            # `data.split_first_chunk::<N>()`: the first N bytes and the rest, or None when fewer are left - the std spelling of "take N"
+            n = (list(c.get("args") or []) + ["?", "?"])[1]
+            return "take:%s" % n
         if nm in NOISE:
             return None
         if nm in STRUCT:
@@ -297,6 +301,11 @@ def from_float_le(a):
         return None
     arr = t[1][3]
     n = 4 if t[1][2] == "u32" else 8
+    a2 = norm(arr)
+    if a2[0] == "init" and a2[1][0] == "P" and a2[1][1][0] == "getf" and a2[1][1][2] == "0" and a2[1][1][1][0] == "someval" \
+            and a2[1][1][1][1][0] == "call" and (a2[1][1][1][1][2] or "").endswith("<impl [T]>::split_first_chunk"):
+        # the array is the first chunk of the input as handed out by split_first_chunk::<N> (N is pinned by the `take:N` token of the row)
+        return "f32le" if n == 4 else "f64le"
     if not (arr[0] == "agg" and arr[1] == "array" and len(arr[5]) == n):
         return None
     idx = []
